@@ -43,6 +43,12 @@ mod pkgname;
 mod pkgpath;
 mod scanindex;
 
+/*
+ * Verification hooks, only compiled with the "verif-hooks" feature.
+ */
+#[cfg(feature = "verif-hooks")]
+pub mod verif_hooks;
+
 pub use crate::depend::{Depend, DependError, DependType};
 pub use crate::dewey::{Dewey, DeweyError};
 pub use crate::metadata::{Metadata, MetadataEntry};
